@@ -112,11 +112,17 @@ def native_run(snippet, timeout=120):
     env = dict(os.environ)
     env["PYTHONPATH"] = REPO_SRC
     env["PYTHONWARNINGS"] = "ignore"
+    import tempfile, shutil
+    tmpd = tempfile.mkdtemp(prefix="pyvc_native_")
+    env["TMPDIR"] = tmpd      # whoosh's RamStorage temp files collide between concurrent processes otherwise
     try:
-        p = subprocess.run([NATIVE_PY, "-W", "ignore", "-c", snippet], capture_output=True, text=True, timeout=timeout, env=env)
+        p = subprocess.run([NATIVE_PY, "-W", "ignore", "-c", snippet], capture_output=True, text=True,
+                           timeout=timeout, env=env, cwd=tmpd)
         return p.returncode, (p.stdout + p.stderr)[-1500:]
     except subprocess.TimeoutExpired:
         return -1, "timeout"
+    finally:
+        shutil.rmtree(tmpd, ignore_errors=True)
 
 
 def make_replay(prop, unit, rec, R):
